@@ -723,6 +723,11 @@ class Executor:
                     fields[str(i)] = self.operand(st, p)
             base = re.sub(r"::<.*$", "", ty)
             return Agg(dest_ty or base, variant, fields, self.ctx.variant_index(dest_ty or base, variant))
+        # bare unit variant of an enum from another crate, printed without its path (`_0 = Expanded;`)
+        if dest_ty and re.fullmatch(r"[A-Z][A-Za-z0-9_]*", t):
+            vi = self.ctx.variant_index(dest_ty, t)
+            if vi is not None:
+                return Agg(dest_ty, t, {}, vi)
         raise Unsupported("rvalue: " + t[:160])
 
     def discriminant(self, v):
